@@ -9,6 +9,7 @@ import tlc
 import oa
 
 ASSUME = [
+    "port sets include one public port forwarded to two local targets (a repeated public port, in every mapping form)",
     "TLC decides every recorded vector with OnionAdd.Holds14 (expected key specifier, port mappings, flag set, client-auth entries, "
     "address, key custody, DEL_ONION); the full product of options is enumerated by the Python driver",
     "the ADD_ONION line is tokenised by the harness's own parser (space separated, Port=pub,target / Flags=a,b / ClientAuth=name[:blob])",
@@ -28,7 +29,11 @@ PORTSETS = [[dict(form="int", pub=80, loc="")], [dict(form="pair", pub=443, loc=
             [dict(form="int", pub=80, loc=""), dict(form="str", pub=443, loc="127.0.0.1:8443")],
             [dict(form="pair", pub=1, loc="127.0.0.1:65535"), dict(form="int", pub=65535, loc=""), dict(form="str", pub=8, loc="localhost:9")],
             [dict(form="int", pub=80, loc=""), dict(form="int", pub=443, loc="")],
-            [dict(form="int", pub=8080, loc=""), dict(form="pair", pub=22, loc="127.0.0.1:2222"), dict(form="int", pub=81, loc="")]]
+            [dict(form="int", pub=8080, loc=""), dict(form="pair", pub=22, loc="127.0.0.1:2222"), dict(form="int", pub=81, loc="")],
+            # one public port forwarded to several local targets (Tor spreads connections over them)
+            [dict(form="str", pub=80, loc="127.0.0.1:8080"), dict(form="str", pub=80, loc="127.0.0.1:8081")],
+            [dict(form="pair", pub=80, loc="127.0.0.1:8080"), dict(form="str", pub=443, loc="127.0.0.1:8443"), dict(form="pairstr", pub=80, loc="unix:/tmp/web.sock")],
+            [dict(form="int", pub=80, loc=""), dict(form="int", pub=80, loc="")]]
 CLIENTS = [[], [dict(name="alice", token="")], [dict(name="alice", token="YWxpY2VzZWNyZXQ"), dict(name="bob", token="")],
            [dict(name="carol", token="Y2Fyb2w"), dict(name="dave", token="ZGF2ZQ")]]
 
